@@ -14,6 +14,14 @@ CHECKS = {
    technique="proptest-generated open/close cycles against the connection limit over a lossy simulated network, with stale-datagram replay and socket cancellation; oracle on slot reuse, end-of-task events, silence and alive-task count",
    text="Cycles of `limit` (1..4) connections on one socket pair with max_live_vsocks = limit; every side writes a little and lets go in a generated way (drop both, shutdown then drop, reader first, wait for EOF with application patience, writer first); closing datagrams dropped/delayed/duplicated freely, dont_wait_for_lastack either way, old datagrams replayed after the end, cancellation token fired at a generated instant in 20 % of the cases. Every later cycle must be established (slots released), each connection task ends within T_end = 82 s of both halves being dropped, nothing carrying its id is emitted afterwards, at the end only dispatchers are alive; after cancel nothing is emitted, tasks are dropped promptly and no write succeeds.",
    note="end-of-task instants come from the cfg-guarded observer hook; T_end = inactivity (10 s) + 70 s back-off allowance + 2 s; RESET replies are not counted as emissions for the connection", ref="§5 C08"),
+ "C12": dict(engine="MC", cat="exploration",
+   technique="proptest-generated concurrent connect/accept workloads on 2..4 simulated sockets with a token protocol and keyed payloads; isolation/limit/id-uniqueness oracle over application results, wire log and end-of-task events",
+   text="2..4 sockets with limits 1..64, up to 14/24 connect calls in both directions and several to one peer at clustered instants, colliding initial sequence numbers and adjacent initial connection ids, loss-free or fair-lossy network. Every stream yields only its own connection's bytes (token, both keyed payloads, nothing extra), no token twice, established-and-not-ended connections never exceed the limit, endpoints live at one socket towards one address never share a receive id, connect calls end Ok / TooManyActiveConnections / abandoned; loss-free: identified connections complete whatever else happens and certainly admissible attempts succeed.",
+   note="known finding F7 (probe re-cut) is excluded by the same counted network guard as in C01; opposite-direction calls with equal or adjacent SYN ids may wait (exempt from the 'admissible' clause)", ref="§5 C12"),
+ "C13": dict(engine="MC", cat="exploration",
+   technique="proptest-generated connect/accept/abandon/duplicate-SYN schedules at distinct virtual instants; reference model of the request and acceptor queues (differential oracle) plus token pairing",
+   text="Loss-free runs in three classes: fifo (connect calls from 1..3 clients, accept calls before/after the requests, 30 % abandoned, duplicate SYNs, listener limit 64 or 2..6), backlog (up to 12 real + 76 raw SYNs against 0..46 accept calls), abandon (connect calls abandoned with the SYN lost or queued, accept calls abandoned before any request, then 1..4 connects that must succeed). A reference model of the two FIFO queues predicts which request every accept call receives and which requests are answered by a RESET at their arrival instant; every Ok connect has exactly one accepted stream delivering its token and both streams carry each other's bytes to completion.",
+   note="events whose order matters never share an instant (SYNs even ms, accept calls/abandonment odd ms); duplicates arrive while the original is queued or alive", ref="§5 C13"),
  "C14": dict(engine="E2E", cat="exploration",
    technique="proptest-generated link/path MTU configurations with blackhole or EMSGSIZE and fair loss; wire-log oracle on datagram sizes, probe discipline and convergence",
    text="Generated link MTUs, true path MTUs, address families, probe retransmission limits and loss of non-probe datagrams; every datagram fits the emitter's link MTU, first transmissions above the proven size are single newest probes, data stays intact, the steady size equals the largest fitting payload within 2*ceil(log2(range))+3 probes.",
